@@ -436,7 +436,7 @@ def fam_zero_mid():
     """a volatile parameter is updated to the boundary value 0 in the middle of a sequence of updates while the count
     that depends on it stays positive (count n+2, 2n+1, (m+1)*n after merging, a mapped offset)"""
     n, m, k = V_('n'), V_('m'), V_('k')
-    seqs = [[{'n': 4}, {'n': 0}, {'n': 1}, {'n': 0}], [{'n': 0}], [{'n': 0}, {'n': 0}], [{'n': 3}, {'n': 0}, {'n': 3}]]
+    seqs = [[{'n': 4}, {'n': 0}, {'n': 1}, {'n': 0}], [{'n': 0}], [{'n': 0}, {'n': 0}], [{'n': 3}, {}, {'n': 0}, {'n': 3}]]
     out = []
     shapes = [
         (R_(add_(n, C_(2)), A_(0)), {'n': 2}, ['n'], 'n'),
@@ -454,7 +454,7 @@ def fam_zero_mid():
         for j, sq in enumerate(seqs):
             if (i + j) % 2 and j > 1:
                 continue
-            ups = [{var: list(us.values())[0]} for us in sq]
+            ups = [{var: list(us.values())[0]} if us else {} for us in sq]
             out.append((pt, vals, V, ups))
     return out
 
@@ -887,7 +887,10 @@ def _update_tree(loop, us):
     from qupulse.program.volatile import VolatileRepetitionCount
     rd = loop.repetition_definition
     if isinstance(rd, VolatileRepetitionCount):
+        snapshot = dict(us)
         rd.update_volatile_dependencies(us)
+        if dict(us) != snapshot:                    # the callee must not edit the caller's mapping
+            raise RuntimeError('update mapping changed by update_volatile_dependencies')
     for c in loop:
         _update_tree(c, us)
 
@@ -899,7 +902,10 @@ def _tree_pipeline(case, vals):
     with warnings.catch_warnings(record=True) as ws:
         warnings.simplefilter('always')
         try:
-            prog = pt.create_program(parameters=_named(vals), volatile=set(case['V']))
+            if not case['V'] and case.get('alias'):
+                prog = pt.create_program(parameters=_named(vals))          # volatile not declared at all
+            else:
+                prog = pt.create_program(parameters=_named(vals), volatile=set(case['V']))
             if prog is None:
                 return {'none': True}, None
             pl = case['pl']
@@ -1207,7 +1213,11 @@ def _run(case):
             if k in cur:
                 cur[k] = typed(v, vt)
         if tp is not None:
-            mods = tp.update_volatile_parameters(typed_dict(us, vt))
+            arg = typed_dict(us, vt)
+            snapshot = dict(arg)
+            mods = tp.update_volatile_parameters(arg)
+            if dict(arg) != snapshot:
+                raise RuntimeError('update mapping changed by update_volatile_parameters')
             ms = []
             for k, e in mods.items():
                 if isinstance(k, int):
